@@ -27,6 +27,7 @@ RULES_DOC["X7"] = common.X7_DOC
 RULES_DOC["X4"] = common.X4_DOC
 RULES_DOC["R5"] = "page release: when the pool is destroyed, every undo of the stack guard (protect_memory(.., FALSE)) covers exactly the region that is then released (same address and size as the ABTU_free_largepage that follows); the size recorded with a user-supplied stack is the size the caller passed, unrounded"
 RULES_DOC["R6"] = "every local memory pool is initialised against the global pool of its own kind (descriptor pools feed on the descriptor pool, stack pools on the stack pool); ABT_thread_create_many reaches a creation only with no attribute or with an attribute whose user stack was tested NULL (one user stack is never given to several ULTs)"
+RULES_DOC["R11"] = "= C16.R8: memory carved out of a descriptor block (key tables) stays inside the bytes handed out: the trailing word tells ABTI_mem_free_desc whether the block goes to free() or back to the pool"
 RULES_DOC["R10"] = "= C11.R6: a caller that blocked (join of a tasklet from a ULT, ...) continues with the stream it was resumed on: the descriptor it frees afterwards goes to the lock-free local pool of the stream it is really running on"
 RULES_DOC["R9"] = "ABTI_mem_pool_take_bucket: the element count stored in the header of a bucket that is being carved block by block is the running counter, or a value the governing conditions have just found equal to it (a half-built bucket returned after a failed page allocation must not claim to be full)"
 RULES_DOC["R8"] = "ABTI_mem_register_stack / ABTI_mem_unregister_stack agree: the guard page of a stack is made accessible again (ABTU_mprotect(.., FALSE)) for exactly the stack_guard_kind values for which it was protected -- memory handed back to the user or to free() must not keep a read-only page"
@@ -962,3 +963,5 @@ def run(P, rep, tier):
     rule_R9(P, rep)
     from . import C11
     common.borrow(rep, P, C11.rule_R6, "R10")
+    from . import C16
+    common.borrow(rep, P, C16.rule_R8, "R11")
